@@ -105,6 +105,7 @@ package signedexchange
 //@     invariant forall s string :: has(statefulRequestHeadersSet, s) <==> (s == "authorization" || s == "cookie" || s == "cookie2" || s == "proxy-authorization" || s == "sec-websocket-key")
 
 //@ uf strLower(string) string
+//@ axiom strLower_idem: forall s string :: {strLower(s)} strLower(strLower(s)) == strLower(s)
 //@ func IsStatefulRequestHeader
 //@   props C09
 //@   ensures[iff-in-list] result <==> (strLower(n) == "authorization" || strLower(n) == "cookie" || strLower(n) == "cookie2" || strLower(n) == "proxy-authorization" || strLower(n) == "sec-websocket-key")
@@ -144,6 +145,10 @@ package signedexchange
 //@   props C09
 //@   pure
 //@   ensures result != nil
+//@   ensures[names-are-lower-case] forall k string :: has(result, k) ==> k == strLower(k)
+//@   loop 0:
+//@     invariant directives != nil && fresh(directives)
+//@     invariant forall k string :: has(directives, k) ==> k == strLower(k)
 
 // IsCacheable (b3): exactly the RFC 7234 section 3 predicate over the status
 // code, the Cache-Control directives found and the Expires header.
